@@ -26,6 +26,15 @@ fn payload(i: usize, class: &str, seed: u64) -> String {
         while s.len() < len { s.push((b'a' + r.below(26) as u8) as char); }
         return s;
     }
+    // `W<len>`: the SECOND item is <len> bytes long, the others are small (a large message between small ones)
+    if let Some(len) = class.strip_prefix('W') {
+        let len: usize = len.parse().unwrap();
+        if i != 1 { return format!("{i}|"); }
+        let mut r = Rng::new(seed, "itemW");
+        let mut s = String::from("1|");
+        while s.len() < len { s.push((b'a' + r.below(26) as u8) as char); }
+        return s;
+    }
     // `Z<len>`: every item is <len> bytes of very repetitive text (a batch of them is far larger than the frame limit
     // before compression and tiny after it)
     if let Some(len) = class.strip_prefix('Z') {
@@ -68,7 +77,7 @@ async fn run_case(addr: SocketAddr, certs: &Certs, t: &[&str], seed: u64) -> any
             let mut got: Vec<String> = vec![];
             let mut errs = 0usize;
             loop {
-                match tokio::time::timeout(Duration::from_millis(if got.len() >= n { 60 } else if class.starts_with('X') || class.starts_with('Z') { 2500 } else { 350 }), sub.next()).await {
+                match tokio::time::timeout(Duration::from_millis(if got.len() >= n { 60 } else if class.starts_with('X') || class.starts_with('Z') || class.starts_with('W') { 2500 } else { 350 }), sub.next()).await {
                     Err(_) => break,
                     Ok(None) => break,
                     Ok(Some(Ok(v))) => got.push($from(v)),
@@ -173,6 +182,12 @@ pub fn run(cfg: &Cfg) {
         cases.push("pp bytes zstd:bal - 3 Z1048000 y".into());
         // without compression: a message that is too large on its own is refused (and nothing else is lost); a batch
         // that outgrows the limit - known finding - takes its members with it
+        // a large message between small ones, inside one batch and across batches, with and without compression
+        for w in [65535usize, 65536, 70000, 300000] {
+            cases.push(format!("pp string - 4:60000 6 W{w} y"));
+        }
+        cases.push("pp bytes gzip:bal 3:60000 5 W200000 y".into());
+        cases.push("pp bytes - 100:60000 4 W70000 y".into());
         cases.push("pp string - - 3 X1048568 y".into());
         cases.push("pp string - 4:60000 6 Z400000 y".into());
         cases.push("pp bytes - 2:60000 5 Z600000 y".into());
